@@ -74,9 +74,11 @@ def _patches(prop=None):
     return out
 
 
-def sensitivity(prop, tier):
+def sensitivity(prop, tier, only=None):
     res = []
     for name, p, patch in _patches(prop):
+        if only and not any(o in name for o in only):
+            continue
         scratch = os.path.join(os.environ.get("VERIF_SCRATCH", "/dev/shm"), f"verif-mut-{os.getpid()}-{name}")
         shutil.rmtree(scratch, ignore_errors=True)
         os.makedirs(scratch)
@@ -96,8 +98,17 @@ def sensitivity(prop, tier):
             t0 = time.time()
             r = subprocess.run([os.path.join(runner.VERIF, "check"), p, "--tier", tier], env=env, capture_output=True, text=True)
             lines = [l for l in r.stdout.splitlines() if l.startswith("VIOLATION")]
-            res.append((name, p, "caught" if (r.returncode == 1 and lines) else f"MISSED(rc={r.returncode})",
-                        f"{time.time() - t0:.0f}s " + "; ".join(l for l in r.stdout.splitlines() if "violation class" in l)[:400]))
+            verdict = "caught" if (r.returncode == 1 and lines) else f"MISSED(rc={r.returncode})"
+            classes = [l.split("violation class ", 1)[1].split(" (", 1)[0] for l in r.stdout.splitlines() if "violation class" in l]
+            res.append((name, p, verdict, f"{time.time() - t0:.0f}s " + "; ".join(l for l in r.stdout.splitlines() if "violation class" in l)[:400]))
+            try:
+                mp = os.path.join(runner.VERIF, "seeded", name, "meta.json")
+                m = json.load(open(mp))
+                m["caught_by"] = {"tier": tier, "verdict": verdict, "violation_classes": classes,
+                                  "harness_errors": [l for l in r.stdout.splitlines() if "HARNESS-ERROR" in l][:3]}
+                json.dump(m, open(mp, "w"), indent=1)
+            except Exception:
+                pass
         finally:
             shutil.rmtree(scratch, ignore_errors=True)
     for row in res:
@@ -116,6 +127,7 @@ def main(rest, tier):
         n = int(rest[2]) if len(rest) > 2 else 200
         return determinism(prop, n)
     if rest[0] == "sensitivity":
-        return sensitivity(rest[1] if len(rest) > 1 else None, tier)
+        prop = rest[1] if len(rest) > 1 and rest[1] != "all" else None
+        return sensitivity(prop, tier, only=rest[2:] or None)
     print(__doc__)
     return 2
